@@ -1757,4 +1757,34 @@ theorem put_keys_nodup_lemma (m : Map) (k v : Str) (h : (m.map Prod.fst).Nodup) 
       exact h.1 (this m hm)
 
 
+theorem isOct_isDigit {c : Char} (h : isOct c = true) : c.isDigit = true := by
+  simp only [isOct, Bool.and_eq_true, decide_eq_true_eq] at h
+  simp only [Char.isDigit, Bool.and_eq_true, decide_eq_true_eq]
+  obtain ⟨h1, h2⟩ := h
+  rw [Char.le_def] at h1 h2
+  have a1 : (48 : Nat) ≤ c.val.toNat := by simpa [UInt32.le_iff_toNat_le] using h1
+  have a2 : c.val.toNat ≤ 55 := by simpa [UInt32.le_iff_toNat_le] using h2
+  constructor
+  · rw [ge_iff_le, UInt32.le_iff_toNat_le]; simpa using a1
+  · rw [UInt32.le_iff_toNat_le]; simp; have : c.toNat = c.val.toNat := rfl; omega
+
+/-- XSI octal escapes: `\0ddd` with three octal digits of value ≤ 255 denotes that code point -/
+theorem expandEscapes_octal_lemma (d1 d2 d3 : Char) (s : Str)
+    (h1 : isOct d1 = true) (h2 : isOct d2 = true) (h3 : isOct d3 = true) (hv : octVal [d1, d2, d3] ≤ 255) :
+    expandEscapes ('\\' :: '0' :: d1 :: d2 :: d3 :: s) = Char.ofNat (octVal [d1, d2, d3]) :: expandEscapes s := by
+  have e0 : simpleEscape '0' = none := by decide
+  have g1 := isOct_isDigit h1
+  have g2 := isOct_isDigit h2
+  have g3 := isOct_isDigit h3
+  have hd : ((d1 :: d2 :: d3 :: s).take 3).takeWhile Char.isDigit = [d1, d2, d3] := by
+    simp [List.takeWhile, g1, g2, g3]
+  unfold expandEscapes
+  rw [expEsc]
+  simp only [beq_self_eq_true, if_true, e0]
+  rw [hd]
+  have ho : octalRepl [d1, d2, d3] = [Char.ofNat (octVal [d1, d2, d3])] := by
+    simp [octalRepl, h1, h2, h3, hv]
+  rw [ho]
+  simp [expEsc]
+
 end CV.Dotenv
